@@ -220,9 +220,11 @@ class JSSPDomainWallHamiltonianEncoder:
 
         early_start_term = self._early_start_term()
 
+        # Instances without consecutive operations or without shared machines yield no penalty terms
+        zero_term = 0 * pauli_identity_string(n_qubits=self._n_qubits)
         self._hamiltonian = (
-            SparsePauliOp.sum(precedence_terms) * self._precedence_constraint_penalty
-            + SparsePauliOp.sum(overlap_terms) * self._overlap_constraint_penalty
+            SparsePauliOp.sum([zero_term, *precedence_terms]) * self._precedence_constraint_penalty
+            + SparsePauliOp.sum([zero_term, *overlap_terms]) * self._overlap_constraint_penalty
             + SparsePauliOp.sum(variable_viability_terms) * self._encoding_penalty
             + makespan_term * (self._max_opt_value * (1 - self._opt_all_operations_share))
             + early_start_term * (self._max_opt_value * self._opt_all_operations_share)
